@@ -192,7 +192,7 @@ class InterpBase:
       self.assume(cap >= 0)
       self.assume(z3.Or(cap == 0, inner.seq.n <= cap))
       return VQueue(inner, cap, name)
-    if ty.startswith('seq[') or ty.startswith('list[') or ty.startswith('deque['):
+    if ty.startswith('seq[') or ty.startswith('list[') or ty.startswith('deque[') or ty.startswith('bdeque['):
       kind = ty[ty.index('[') + 1:-1]
       n = z3.Int(self.path.fresh_name(name + '.len'))
       self.assume(n >= 0)
@@ -200,8 +200,8 @@ class InterpBase:
       seq = VSeq(arr, n, kind)
       if ty.startswith('seq['):
         return seq
-      d = VMList(seq, is_deque=ty.startswith('deque['))
-      if d.is_deque:       # some deque: unbounded (-1) or bounded by a capacity it respects
+      d = VMList(seq, is_deque=ty.startswith('deque[') or ty.startswith('bdeque['))
+      if ty.startswith('bdeque['):       # a deque that may be bounded: unbounded (-1) or bounded by a capacity it respects
         d.maxlen = z3.Int(self.path.fresh_name(name + '.maxlen'))
         self.assume(z3.And(d.maxlen >= -1, z3.Or(d.maxlen == -1, n <= d.maxlen)))
       return d
